@@ -16,20 +16,21 @@ FUNCTIONS = ["wannierberri.system.system_R.System_R.double_spin/set_spin_pairs",
              "wannierberri.system.system_soc.SystemSOC.__init__/set_soc_R/set_soc_axis/get_system_R", "wannierberri.fourier.rvectors.Rvectors.set_Rvec/set_fft_q_to_R/q_to_R/remap_XX_from_grid_to_list_R", "wannierberri.w90files.soc.SOC.__init__", "wannierberri.data_K.data_K_soc.Data_K_soc.__init__/HH_K/Xbar",
              "wannierberri.data_K.data_K_R.Data_K_R.HH_K/Xbar", "wannierberri.w90files.soc.SOC.get_C_ss/get_pauli_rotated"]
 BOUNDS = dict(quick=dict(num_wann_scalar="1..2", R_sets="3..5 R-vectors; up / down / SOC R-sets different", data="symbolic complex X(-R)=X(R)^+ (dV_01 and overlap unconstrained)",
-                         centres="symbolic", angles="theta, phi symbolic (half-angle unit-circle atoms) and the constants 0", alpha_soc="symbolic", k="symbolic: one free phase per R-vector",
+                         centres="symbolic", angles="theta, phi symbolic (half-angle unit-circle atoms) and the constants 0; units radians and degrees (symbolic degrees and the concrete pairs (30,180), (75,40))", alpha_soc="symbolic", k="symbolic: one free phase per R-vector",
                          derivatives="Xbar der <= 1"),
-              thorough=dict(num_wann_scalar="1..3", R_sets="up to 7 R-vectors", data="symbolic complex", centres="symbolic", angles="symbolic", alpha_soc="symbolic", k="symbolic, 2 k-points",
+              thorough=dict(num_wann_scalar="1..3", R_sets="up to 7 R-vectors", data="symbolic complex", centres="symbolic", angles="symbolic, radians and degrees (plus concrete degree pairs incl. (120,-60))", alpha_soc="symbolic", k="symbolic, 2 k-points",
                             derivatives="Xbar der <= 2"))
 EXPLANATION = ("Spinless / spin-up / spin-down systems and the SOC matrices are symbolic object arrays on different R-vector sets; the real double_spin, SystemSOC.set_soc_axis, "
                "get_system_R and Data_K_soc.HH_K/Xbar run on them with symbolic quantisation angles (half-angle unit-circle atoms) and symbolic alpha_soc.  z3 decides the block identities "
                "H_doubled(k) = H(k) (x) 1_2, H_noSOC(k) = H_up(k) (+) H_down(k) on their own R-sets, H of get_system_R == Data_K_soc.HH_K == explicit sum over the SOC matrices, and the "
-               "Pauli algebra / n.sigma' = diag(1,-1) of get_pauli_rotated for all angles.  The spectrum statements of the property are the spectra of these block structures.")
+               "Pauli algebra / n.sigma' = diag(1,-1) of get_pauli_rotated for all angles; set_soc_axis(units='degrees') gives the same system as the same angles in radians, with S.n = diag(+1,-1) and H_soc[up,up] = alpha dV.n for the requested axis.  The spectrum statements of the property are the spectra of these block structures.")
 ASSUMPTIONS = ["dV_soc_wann_0_0 / dV_soc_wann_1_1 obey X(-R)=X(R)^+ (asserted by set_soc_R when they are produced)", "the SOC R-vector set is closed under inversion (set_Rvec produces such sets)",
                "SOC Rvectors carry the interlaced up/down centres as shifts (what set_soc_R does)"]
 OUTSIDE = ["numerical eigenvalues (np.linalg.eigh): the spectrum statements are claimed through the block structure of H(k), not through a diagonalisation",
-           "set_soc_R with a non-trivial Wannier gauge (v_matrix != 1), irreducible k-points with weights, meshes other than 2x1x1 and symbolic centres (the Wigner-Seitz construction needs numbers)", "units='degrees' in set_soc_axis (np.deg2rad of a symbolic angle)",
+           "set_soc_R with a non-trivial Wannier gauge (v_matrix != 1), irreducible k-points with weights, meshes other than 2x1x1 and symbolic centres (the Wigner-Seitz construction needs numbers)", "the magnetic point group set by set_soc_axis when a cell is given (irrep.SpaceGroup)",
            "E_K_corners_* of Data_K_soc (property C33)", "sizes above the stated bounds"]
-STUBS = ["fourier.fft.execute_fft (as imported by rvectors) -> the DFT by definition with exact quarter-turn twiddles (set_soc_R cases)", "chk stand-ins (num_kpts, mp_grid, kpt_red, num_bands, v_matrix = 1) for set_soc_R",
+STUBS = ["np.deg2rad / np.radians in the shadowed modules for a symbolic angle: the linear map x -> x*(pi/180) (numpy's own double constant), concrete angles go to the real numpy function",
+         "fourier.fft.execute_fft (as imported by rvectors) -> the DFT by definition with exact quarter-turn twiddles (set_soc_R cases)", "chk stand-ins (num_kpts, mp_grid, kpt_red, num_bands, v_matrix = 1) for set_soc_R",
          "grid stand-in with FFT=(1,1,1) for Data_K_R / Data_K_soc (k_list=...)", "UU_K = identity put into the Data_K cache (no eigh)"]
 
 LAT = np.array([[1.0, 0, 0], [0.25, 1.5, 0], [0, 0.5, 2.0]])
@@ -193,7 +194,7 @@ def arrays_soc(spec):
     return A
 
 
-def mk_soc(spec, A):
+def mk_soc(spec, A, axis=True):
     nb, ns = spec["nb"], spec["nspin"]
     sub = [mk_system(nb, RSETS[spec["Rud"][ud]], A[tag + "c"], {key: A[f"{tag}X_{key}"] for key in spec["keys"]}) for ud, tag in enumerate(("u", "d")[:ns])]
     s = SSOC.SystemSOC(*sub, silent=True)
@@ -203,8 +204,9 @@ def mk_soc(spec, A):
         for key in soc_keys(ns):
             s.set_R_mat(key, A["X_" + key].copy())
         s.has_soc = True
-        th, ph, a = A["angles"]
-        s.set_soc_axis(theta=th, phi=ph, alpha_soc=a)
+        if axis:
+            th, ph, a = A["angles"]
+            s.set_soc_axis(theta=th, phi=ph, alpha_soc=a)
     return s
 
 
@@ -433,7 +435,68 @@ def ob_socR(rec, spec, A, k, xp):
     rec.eq("set_soc_axis(alpha_soc=a) afterwards: Ham_SOC == a * sum", s1.get_R_mat("Ham_SOC"), W, key="set_soc_axis does not scale Ham_SOC with alpha_soc")
 
 
-KIND = dict(double=(arrays_double, ob_double), soc=(arrays_soc, ob_soc), pauli=(arrays_soc, ob_pauli), socR=(arrays_socR, ob_socR))
+# ------------------------------------------------------------------------------------------------------------
+# set_soc_axis with the angles given in degrees
+D2R = float(np.pi / 180)
+
+
+class ProxyDeg(NpProxy):
+    """np.deg2rad of a symbolic angle: the linear map x -> x * (pi/180) (the double constant numpy multiplies with), so that the half-angle atoms of the radian angle are shared"""
+
+    def deg2rad(s, x):
+        return SymC.of(x) * D2R if isinstance(x, SymC) else np.deg2rad(x)
+    radians = deg2rad
+
+
+def arrays_deg(spec):
+    A = arrays_soc(spec)
+    if spec.get("deg_angles"):
+        A["angles"] = sarr([SymC.of(float(spec["deg_angles"][0])), SymC.of(float(spec["deg_angles"][1])), SymC.var("asoc")])
+    else:
+        A["angles"] = sarr([SymC.var("thetadeg"), SymC.var("phideg"), SymC.var("asoc")])
+    return A
+
+
+def ob_deg(rec, spec, A, k, xp):
+    nb, ns = spec["nb"], spec["nspin"]
+    td, pd, asoc = A["angles"]
+    # concrete angles: cos/sin are double constants, identities hold to rounding -> tolerance shape (data in [-1,1]); symbolic angles: exact
+    cmp = (lambda name, l, r_, key: rec.close(name + " (1e-9, |data|<=1)", l, r_, 1e-9, bound=1.0, key=key)) if spec.get("deg_angles") else (lambda name, l, r_, key: rec.eq(name, l, r_, key=key))
+    th, ph = xp.deg2rad(td), xp.deg2rad(pd)
+    s = mk_soc(spec, A, axis=False)
+    s.set_soc_axis(theta=td, phi=pd, alpha_soc=asoc, units=spec["units"])
+    r = mk_soc(spec, A, axis=False)
+    r.set_soc_axis(theta=th, phi=ph, alpha_soc=asoc)
+    cmp("degrees and radians give the same Ham_SOC", s.get_R_mat("Ham_SOC"), r.get_R_mat("Ham_SOC"), "set_soc_axis(units=degrees) differs from the same angles in radians")
+    cmp("degrees and radians give the same SS", s.get_R_mat("SS"), r.get_R_mat("SS"), "set_soc_axis(units=degrees) differs from the same angles in radians")
+    # n = (sin th cos ph, sin th sin ph, cos th) of the REQUESTED axis, from the half angles
+    c2, s2, cp, sp = xp.cos(th / 2), xp.sin(th / 2), xp.cos(ph / 2), xp.sin(ph / 2)
+    n = [2 * s2 * c2 * (cp * cp - sp * sp), 2 * s2 * c2 * 2 * sp * cp, c2 * c2 - s2 * s2]
+    iR = RSETS[spec["R"]]
+    i0 = tl(iR).index((0, 0, 0))
+    SS = s.get_R_mat("SS")
+    if ns == 1:
+        for a in range(nb):
+            cmp(f"degrees: on-site spin along the requested axis n(theta,phi) is diag(+1,-1) (Wannier function {a})", sum(n[c] * SS[i0, 2 * a:2 * a + 2, 2 * a:2 * a + 2, c] for c in range(3)),
+                np.diag([1, -1]), "set_soc_axis(units=degrees): S.n is not diag(+1,-1)")
+    else:
+        for a in range(nb):
+            cmp(f"degrees: spin-diagonal on-site entries of S.n are +1, -1 (Wannier function {a})", [sum(n[c] * SS[i0, 2 * a + t, 2 * a + t, c] for c in range(3)) for t in (0, 1)], [1, -1],
+                "set_soc_axis(units=degrees): S.n is not diag(+1,-1)")
+    W = s.get_R_mat("Ham_SOC")
+    V00 = A["X_dV_soc_wann_0_0"]
+    V11 = A["X_dV_soc_wann_1_1"] if ns == 2 else V00
+    cmp("degrees: H_soc[up,up](R) == alpha_soc dV_00(R).n", W[:, ::2, ::2], asoc * sum(V00[..., c] * n[c] for c in range(3)), "set_soc_axis(units=degrees): spin-diagonal block of H_soc is not dV.n")
+    cmp("degrees: H_soc[down,down](R) == -alpha_soc dV_11(R).n", W[:, 1::2, 1::2], -asoc * sum(V11[..., c] * n[c] for c in range(3)), "set_soc_axis(units=degrees): spin-diagonal block of H_soc is not dV.n")
+    try:
+        mk_soc(spec, A, axis=False).set_soc_axis(theta=td, phi=pd, units="gradians")
+        ok = False
+    except ValueError:
+        ok = True
+    rec.concrete("unknown units are refused (ValueError)", ok, key="set_soc_axis accepts unknown units")
+
+
+KIND = dict(double=(arrays_double, ob_double), soc=(arrays_soc, ob_soc), pauli=(arrays_soc, ob_pauli), socR=(arrays_socR, ob_socR), deg=(arrays_deg, ob_deg))
 
 
 def angle_of(env, x):
@@ -447,7 +510,8 @@ def angle_of(env, x):
 
 def case_run(rec, spec):
     warnings.filterwarnings("ignore")
-    shadow(MODS)
+    proxy = ProxyDeg()
+    shadow(MODS, proxy=proxy)
     RV.execute_fft = exact_fft
     mk, ob = KIND[spec["kind"]]
     A = mk(spec)
@@ -456,12 +520,16 @@ def case_run(rec, spec):
     def witness(env):
         arrs = {n: env.arr(a) for n, a in A.items() if n != "angles"}
         if "angles" in A:
-            arrs["angles"] = dict(re=[angle_of(env, A["angles"][0]), angle_of(env, A["angles"][1]), env.val(A["angles"][2])], im=None)
+            if spec["kind"] == "deg":       # angles are in degrees; their model value comes from the half-angle atoms of the radian angle
+                ang = [float(x) if SymC.of(x).isconst() else angle_of(env, SymC.of(x) * D2R) / D2R for x in A["angles"][:2]]
+            else:
+                ang = [angle_of(env, A["angles"][0]), angle_of(env, A["angles"][1])]
+            arrs["angles"] = dict(re=ang + [env.val(A["angles"][2])], im=None)
         return dict(spec=spec, arrays=arrs)
 
     def body(rec):
         rec.witness = witness
-        ob(rec, spec, A, k, NpProxy())
+        ob(rec, spec, A, k, proxy)
     rec.explore(body, [])
 
 
@@ -490,6 +558,10 @@ def cases(tier, seed):
     for nb, nspin, Rud, st in ((1, 2, ("A", "B"), True), (1, 1, ("C",), True), (2, 2, ("A", "A"), False)) + (() if q else ((2, 2, ("B", "C"), True), (2, 1, ("A",), True), (3, 2, ("A", "B"), False))):
         out.append(Case(f"set_soc_R nb={nb} nspin={nspin} up/down={'/'.join(Rud)} mesh=2x1x1 angles={'symbolic' if st else '0'} alpha_soc symbolic, 0, default", case_run,
                         dict(spec=dict(kind="socR", nb=nb, nspin=nspin, Rud=Rud, sym_theta=st, sym_phi=st, nk=1)), timeout=1500))
+    degs = [(1, 2, None, "degrees"), (1, 1, None, "deg"), (1, 2, (30.0, 180.0), "Degrees"), (1, 1, (75.0, 40.0), "degrees")] + ([] if q else [(2, 2, None, "degrees"), (2, 1, (120.0, -60.0), "d"), (2, 2, (30.0, 180.0), "degrees")])
+    for nb, nspin, da, units in degs:
+        out.append(Case(f"set_soc_axis units={units} nb={nb} nspin={nspin} angles={'symbolic (degrees)' if da is None else da}", case_run,
+                        dict(spec=dict(kind="deg", soc=True, nb=nb, nspin=nspin, Rud=("C", "B")[:nspin], R="A", keys=["Ham"], sym_theta=True, sym_phi=True, deg_angles=da, units=units, nk=1)), timeout=1500))
     for st, sp in ((True, True), (True, False), (False, True)):
         out.append(Case(f"pauli theta={'sym' if st else 0} phi={'sym' if sp else 0}", case_run,
                         dict(spec=dict(kind="pauli", soc=True, nb=1, nspin=1, Rud=("A",), R="A", keys=[], sym_theta=st, sym_phi=sp))))
@@ -508,6 +580,9 @@ class NumRec:
         ok = (a.shape == b.shape or b.size == 1) and np.allclose(a, b, rtol=1e-9, atol=1e-9 * (1 + np.abs(b).max(initial=0)))
         if not ok:
             s.bad.append(name)
+
+    def close(s, name, a, b, tol, bound=1.0, key=None):
+        s.eq(name, a, b)
 
     def concrete(s, name, ok, detail="", key=None):
         if not ok:
